@@ -1104,6 +1104,16 @@ def _atan2(a, b, out=None):
     return _out(ewise(lambda y, x: fn("atan2", y, x), a, b), out, "atan2")
 
 
+@reg("addcmul")
+def _addcmul(a, t1, t2, *, value=1, out=None):
+    return _out(ewise(lambda x, y, z: x + to_E(value) * y * z, a, t1, t2), out, "addcmul")
+
+
+@reg("addcmul_")
+def _addcmul_i(a, t1, t2, *, value=1):
+    return write(a, ewise(lambda x, y, z: x + to_E(value) * y * z, a, t1, t2), "addcmul_")
+
+
 @reg("pow", "__pow__")
 def _pow(a, n):
     if isinstance(n, float) and n == int(n):
